@@ -1384,9 +1384,10 @@ def materialize_bench(case):
         out.append(sep.join(f))
         if case.get("blank") and i == n // 2:
             out.append("")
-    text = "\n".join(out)
+    eol = case.get("eol", "\n")   # "\r\n": the file as a Windows checkout / editor stores it
+    text = eol.join(out)
     if case["trailing_newline"]:
-        text += "\n"
+        text += eol
     return text
 
 
@@ -1397,11 +1398,16 @@ def bench_cases(rng, seed, n_cases, start, max_rows):
             n = max_rows
         if i == 1:
             n = 1
-        yield {"kind": "bench", "gen": [seed, start + i], "n_rows": n, "n_cols": int(rng.choice([1, 2, 2, 3, 4])),
+        case = {"kind": "bench", "gen": [seed, start + i], "n_rows": n, "n_cols": int(rng.choice([1, 2, 2, 3, 4])),
                "sep": str(rng.choice(["; ", "; ", ";", ";  "])), "order": str(rng.choice(["sorted", "sorted", "shuffled", "dups"])),
                "decimals": int(rng.choice([1, 2, 4, 4, 6])), "flavour": str(rng.choice(["sea", "decades", "ints"])),
                "trailing_newline": bool(rng.integers(0, 4)), "blank": bool(rng.integers(0, 6) == 0),
                "step_h": int(rng.choice([1, 1, 3, 24])), "reread": i % 2 == 1}
+        if i % 6 == 5:
+            case["decimals"] = 0          # whole numbers: pandas makes these int64 columns
+        if i % 5 == 3:
+            case["eol"] = "\r\n"
+        yield case
 
 
 def run_bench_impl(text, reread=False, default_path=False):
@@ -1480,7 +1486,7 @@ def oracle_bench(text, impl):
     import datetime as dt
 
     bad = []
-    lines = [l for l in text.split("\n") if l != ""]
+    lines = [l for l in text.replace("\r\n", "\n").split("\n") if l != ""]
     hdr = [f.lstrip(" ") for f in lines[0].split(";")]
     rows = [[f.lstrip(" ") for f in l.split(";")] for l in lines[1:]]
     try:
@@ -1533,7 +1539,14 @@ def process_bench(ck, cases):
         lines.append(["RUN", "readbench", stok(text)])
     ans = ck.driver.run(lines) if lines else []
     for (case, text, impl, bad), a in zip(recs, ans):
-        n_lines = len([l for l in text.split("\n") if l])
+        n_lines = len([l for l in text.replace("\r\n", "\n").split("\n") if l])
+        if "\r\n" in text:
+            ck.count("bench:line_ends=CRLF")
+        if case.get("decimals") == 0:
+            ck.count("bench:whole_number_columns")
+        if "dtypes" in impl:
+            for k in set(impl["dtypes"]):
+                ck.count("bench:column_dtype=" + k)
         ck.case(case, nontrivial=n_lines >= 3)
         ck.count("bench:rows<=%d" % (10 ** len(str(max(0, n_lines - 2)))))
         if "order" in case:
@@ -1620,6 +1633,7 @@ def corpus():
          "text": "time (YYYY-MM-DD-HH); significant wave height (m); zero-up-crossing period (s)\n"
                  "1996-01-01-00; 0.2845; 4.7252\n1996-01-01-01; 0.2774; 4.6210\n1995-12-31-23; 0.3062; 4.1545\n"},
         {"kind": "bench", "gen": "corpus", "text": "t; a\n2000-02-29-23; 1.5\n2000-02-29-23; -0.25"},
+        {"kind": "bench", "gen": "corpus", "text": "t; a; b\r\n2001-03-04-05; 1.5; 2\r\n\r\n2001-03-04-04; -0.25; 3\r\n"},
         {"kind": "bench", "gen": "corpus", "text": "t; a\n1997-02-29-00; 1.5\n"},
         {"kind": "bench", "gen": "corpus", "text": "t; a\n1997-02-28-24; 1.5\n"},
         {"kind": "bench", "gen": "corpus", "text": "t; a\n1997-13-01-00; 1.5\n"},
